@@ -38,12 +38,18 @@ pub struct Qual {
     pub path: Option<String>,
     /// quotes although the name would not need them
     pub force_quote: bool,
+    /// 3-D reference `sheet:sheet2!A1` (an opaque qualifier for this library: never one sheet)
+    #[serde(default)]
+    pub sheet2: Option<String>,
 }
 
 #[derive(Debug, Clone, PartialEq, Eq, Hash, Serialize, Deserialize)]
 pub struct RefNode {
     pub qual: Option<Qual>,
     pub area: Area,
+    /// written in lower case (`a1`, `$b$2:c3`); a result may come back in either case
+    #[serde(default)]
+    pub lower: bool,
 }
 
 #[derive(Debug, Clone, PartialEq, Eq, Hash, Serialize, Deserialize)]
@@ -221,13 +227,16 @@ pub fn needs_quote(name: &str) -> bool {
 
 impl Qual {
     pub fn plain(sheet: &str) -> Qual {
-        Qual { pick: 0, sheet: sheet.to_string(), book: None, path: None, force_quote: false }
+        Qual { pick: 0, sheet: sheet.to_string(), book: None, path: None, force_quote: false, sheet2: None }
     }
     pub fn is_external(&self) -> bool {
         self.book.is_some()
     }
+    pub fn is_3d(&self) -> bool {
+        self.sheet2.is_some()
+    }
     pub fn quoted(&self) -> bool {
-        if self.force_quote || needs_quote(&self.sheet) || self.path.is_some() {
+        if self.force_quote || needs_quote(&self.sheet) || self.path.is_some() || self.sheet2.as_ref().map_or(false, |s| needs_quote(s)) {
             return true;
         }
         match &self.book {
@@ -247,6 +256,10 @@ impl Qual {
             inner.push(']');
         }
         inner.push_str(&self.sheet);
+        if let Some(s2) = &self.sheet2 {
+            inner.push(':');
+            inner.push_str(s2);
+        }
         if self.quoted() {
             format!("'{}'!", inner.replace('\'', "''"))
         } else {
@@ -254,6 +267,9 @@ impl Qual {
         }
     }
     pub fn class(&self) -> &'static str {
+        if self.is_3d() {
+            return "3d";
+        }
         if self.is_external() {
             if self.quoted() {
                 "ext-quoted"
@@ -277,8 +293,19 @@ fn qual_text(q: &Option<Qual>) -> String {
 }
 
 impl RefNode {
+    pub fn area_text(&self, a: &Area) -> String {
+        if self.lower {
+            a.text().to_lowercase()
+        } else {
+            a.text()
+        }
+    }
     pub fn text(&self) -> String {
-        format!("{}{}", qual_text(&self.qual), self.area.text())
+        format!("{}{}", qual_text(&self.qual), self.area_text(&self.area))
+    }
+    /// is lower case visible at all (whole-row references have no letters)
+    pub fn shows_lower(&self) -> bool {
+        self.lower && !matches!(self.area, Area::Rows { .. })
     }
 }
 
@@ -389,9 +416,10 @@ pub fn name_class(name: &str) -> &'static str {
 }
 
 pub fn ref_class(r: &RefNode) -> String {
+    let lc = if r.shows_lower() { "+lc" } else { "" };
     match &r.qual {
-        None => format!("{}.{}", r.area.kind(), r.area.abs_kind()),
-        Some(q) => format!("{}.{}@{}", r.area.kind(), r.area.abs_kind(), q.class()),
+        None => format!("{}.{}{}", r.area.kind(), r.area.abs_kind(), lc),
+        Some(q) => format!("{}.{}{}@{}", r.area.kind(), r.area.abs_kind(), lc, q.class()),
     }
 }
 
@@ -408,7 +436,8 @@ fn ref_tok(r: &RefNode, map: RefMap) -> Tok {
     let q = qual_text(&r.qual);
     let text_of = |o: &Option<Area>| -> Vec<String> {
         match o {
-            Some(a) => vec![format!("{}{}", q, a.text())],
+            // a lower-case reference may come back in either case
+            Some(a) => vec![format!("{}{}", q, r.area_text(a)), format!("{}{}", q, a.text())],
             None => {
                 if q.is_empty() {
                     vec!["#REF!".to_string()]
@@ -419,7 +448,7 @@ fn ref_tok(r: &RefNode, map: RefMap) -> Tok {
         }
     };
     let mut t = match &outs[0] {
-        Some(a) => Tok::new(Kind::Ref, format!("{}{}", q, a.text()), ref_class(r)),
+        Some(a) => Tok::new(Kind::Ref, format!("{}{}", q, r.area_text(a)), ref_class(r)),
         None => Tok::new(Kind::Err, "#REF!", ref_class(r)),
     };
     for o in outs.iter() {
@@ -565,15 +594,24 @@ pub fn render(e: &Expr, blanks: &[u8]) -> String {
                 }
             }
             Piece::BlankOpt => {
-                let n = blanks.get(k).copied().unwrap_or(0).min(3);
+                s.push_str(blank_text(blanks.get(k).copied().unwrap_or(0)));
                 k += 1;
-                for _ in 0..n {
-                    s.push(' ');
-                }
             }
         }
     }
     s
+}
+
+/// decorative blank codes: 0 none, 1-2 spaces, 3 line feed, 4 tab, 5 CR LF + indentation
+pub fn blank_text(code: u8) -> &'static str {
+    match code {
+        0 => "",
+        1 => " ",
+        2 => "  ",
+        3 => "\n",
+        4 => "\t",
+        _ => "\r\n  ",
+    }
 }
 
 pub fn render_plain(e: &Expr) -> String {
@@ -981,7 +1019,7 @@ fn classify_operand(s: &str) -> Kind {
         return Kind::Bool;
     }
     let (_q, rest) = split_qualifier(s);
-    if parse_area(rest).is_some() {
+    if parse_area(rest).is_some() || (rest.chars().all(|c| !c.is_ascii_uppercase()) && parse_area(&rest.to_ascii_uppercase()).is_some()) {
         return Kind::Ref;
     }
     if rest.contains('[') {
@@ -1130,9 +1168,9 @@ pub fn lex(text: &str) -> Result<Vec<Tok>, String> {
                 out.push(Tok::new(Kind::Close, ")", ""));
                 i += 1;
             }
-            ' ' => {
+            ' ' | '\n' | '\t' | '\r' => {
                 flush(&mut acc, &mut out);
-                while i < ch.len() && ch[i] == ' ' {
+                while i < ch.len() && matches!(ch[i], ' ' | '\n' | '\t' | '\r') {
                     i += 1;
                 }
                 out.push(Tok::new(Kind::Blank, " ", ""));
@@ -1290,8 +1328,13 @@ pub fn qual() -> BoxedStrategy<Qual> {
         1 => prop::sample::select(vec!["Book1.xlsx", "My Book.xlsx", "data-2024.xlsm"]).prop_map(|b| (Some(b.to_string()), None)),
         1 => prop::sample::select(vec!["C:\\Users\\me\\", "/home/u/", "\\\\srv\\share\\"]).prop_map(|p| (Some("Book1.xlsx".to_string()), Some(p.to_string()))),
     ];
-    (any::<u16>(), qual_sheet_name(), book, prop::bool::weighted(0.05))
-        .prop_map(|(pick, sheet, (book, path), force_quote)| Qual { pick, sheet, book, path, force_quote })
+    let second = prop_oneof![14 => Just(None::<String>), 1 => qual_sheet_name().prop_map(Some)];
+    (any::<u16>(), qual_sheet_name(), book, prop::bool::weighted(0.05), second)
+        .prop_map(|(pick, sheet, (book, path), force_quote, sheet2)| {
+            // a 3-D reference names two sheets of this book
+            let sheet2 = if book.is_some() { None } else { sheet2 };
+            Qual { pick, sheet, book, path, force_quote, sheet2 }
+        })
         .boxed()
 }
 
@@ -1300,7 +1343,7 @@ pub fn opt_qual() -> BoxedStrategy<Option<Qual>> {
 }
 
 pub fn ref_node() -> BoxedStrategy<RefNode> {
-    (opt_qual(), area()).prop_map(|(qual, area)| RefNode { qual, area }).boxed()
+    (opt_qual(), area(), prop::bool::weighted(0.06)).prop_map(|(qual, area, lower)| RefNode { qual, area, lower }).boxed()
 }
 
 pub fn num_text() -> BoxedStrategy<String> {
@@ -1467,21 +1510,24 @@ pub fn blank_plan() -> BoxedStrategy<Vec<u8>> {
     prop_oneof![
         3 => Just(Vec::new()),
         2 => prop::collection::vec(prop_oneof![3 => Just(0u8), 2 => Just(1u8), 1 => Just(2u8)], 0..24),
+        1 => prop::collection::vec(prop_oneof![4 => Just(0u8), 2 => Just(1u8), 2 => Just(3u8), 1 => Just(4u8), 1 => Just(5u8)], 0..24),
     ]
     .boxed()
 }
 
 /// `formula_text()` style strategy for other properties: well-formed formula text (without `=`)
-/// restricted to the forms that survive the tokenizer unchanged (no array constants, no `@`).
+/// restricted to the forms that survive the tokenizer unchanged (no `@`).
 pub fn formula_text() -> BoxedStrategy<String> {
     (expr(), blank_plan())
         .prop_map(|(e, b)| {
             let e = e.map(&mut |x| match x {
-                Expr::Array(rows) => rows[0][0].clone(),
                 Expr::At(inner) => *inner,
                 Expr::Err { qual: None, text } if !CLASSIC_ERRORS.contains(&text.as_str()) => Expr::Err { qual: None, text: "#N/A".into() },
                 o => o,
             });
+            // other properties save and reload this text: keep to blanks an XML text node
+            // returns unchanged (no CR)
+            let b: Vec<u8> = b.into_iter().map(|c| if c >= 3 { 1 } else { c }).collect();
             render(&e, &b)
         })
         .boxed()
